@@ -178,6 +178,7 @@ def check(prog, run):
         run.report(r, "%s:Executor.execute_fields_serially:accumulator" % EXE, f.where(), "the accumulator is not an insertion-ordered mapping")
     _s3(prog, run)
     _s4(prog, run)
+    check_deferred_conservation(prog, run, "S5")
 
 
 def _s4(prog, run):
@@ -262,3 +263,41 @@ def _s3(prog, run):
         adef = [n for n in own_nodes(m.node) if isinstance(n, ast.Assign) and ast.unparse(n.targets[0]) == acc]
         if not adef or "OrderedDict" not in ast.unparse(adef[0].value) and ast.unparse(adef[0].value) not in ("{}", "dict()"):
             run.report(r, "%s:%s:accumulator" % (BEXE, m.qualname), m.where(), "the result mapping is not insertion-ordered")
+
+
+def check_deferred_conservation(prog, run, rule_id):
+    """Every collection of possibly deferred values built by the generic Executor leaves through a runtime combinator."""
+    from .. import boolx
+    r = run.rule(rule_id, "the generic Executor never returns a plain container of possibly deferred values: every return of "
+                          "complete_list_value is runtime.gather_values(...) over the per-item complete_value results, every return "
+                          "of complete_non_nullable_value is runtime.map_value(...), and execute_fields returns through "
+                          "gather_values — otherwise the enclosing field looks finished to unwrap_value while its items are still "
+                          "pending (the serial chain starts the next mutation field early; the deferred runtimes put futures or "
+                          "coroutines into the data)", 3)
+    ex = prog.get_class(EXE, "Executor")
+    for mname, need in (("complete_list_value", "gather_values"), ("complete_non_nullable_value", "map_value"), ("execute_fields", "gather_values")):
+        m = ex.methods.get(mname)
+        if m is None:
+            raise AnalysisError("%s: Executor.%s not found" % (rule_id, mname))
+        run.looked_at(m)
+        try:
+            _ev, exits = boolx.walk_under(m.node, lambda t: None)
+        except ValueError as e:
+            raise AnalysisError("%s: %s" % (rule_id, e))
+        rets = [(st, env) for k, st, env in exits if k == "return"]
+        r.instance("Executor.%s: %d return paths" % (mname, len(rets)))
+        if not rets:
+            raise AnalysisError("%s: Executor.%s has no return path" % (rule_id, mname))
+        for st, env in rets:
+            names = [c.func.attr for c in env.get(boolx.CALLS, ()) if isinstance(c.func, ast.Attribute) and "runtime" in ast.unparse(c.func.value)]
+            v = st.value
+            if isinstance(v, ast.Name):
+                binds = [x.value for x in env.get(boolx.STMTS, ()) if isinstance(x, ast.Assign) and any(isinstance(t, ast.Name) and t.id == v.id for t in x.targets)]
+                v = binds[-1] if binds else v
+            direct = isinstance(v, ast.Call) and isinstance(v.func, ast.Attribute) and "runtime" in ast.unparse(v.func.value)
+            if need not in names or not direct:
+                cond = ", ".join("%s=%s" % kv for kv in sorted(env.items()) if kv[0] not in (boolx.CALLS, boolx.STMTS))
+                run.report(r, "%s:Executor.%s:returns-ungathered" % (EXE, mname), m.where(st),
+                           "Executor.%s can return `%s` without going through runtime.%s (when %s): deferred items inside it are "
+                           "not waited for" % (mname, norm_stmt(st, 70), need, cond or "always"))
+                break
